@@ -195,6 +195,10 @@ def run_property(prop, tier, seed):
     extra = None
     if prop == "C13":
         extra = ["--cost-max-log2", "16" if tier == "quick" else "20"]
+    if prop == "C16":
+        # rare long-history episodes: 2^22 searches with one finder in quick,
+        # 2^29 + 2^20 in thorough (counters that wrap only after 2^29 calls)
+        extra = ["--long-history", "22" if tier == "quick" else "29"]
     tmo = 90 if tier == "quick" else 900
     cross_cpu_violation = None
     if prop == "C09":
